@@ -96,6 +96,18 @@ def cases(tier, rng):
             if v >= 1:   # an item longer than a whole bar that starts mid-bar would need two splits: outside the stated behaviour
                 yield Case("track.run", ["none", [["add", C4, 4], ["from_chords", cl, v]]], "from_chords/offset", kind=("from_chords_off", v))
         yield Case("track.run", ["Piano", [["from_chords", cl, 1]]], "from_chords/instrument", kind=("from_chords", 1))
+    # bars added one after the other (the first stays empty), and a bar added right after a refused note
+    for instr in ("none", "Piano"):
+        yield Case("track.run", [instr, [["add_bar", "C", 4, 4], ["add_bar", "G", 3, 4], ["add_bar", "D", 6, 8], ["add", C4, 8]]],
+                   "history/empty-bars", kind=("run",))
+        yield Case("track.run", [instr, [["add", C4, 1], ["add", C4, F(1, 2)], ["add_bar", "F", 2, 2], ["add_bar", "F", 2, 2], ["add", C4, 2]]],
+                   "history/empty-bars", kind=("run",))
+    # a chord given as a plain list of octave-less names, with and without an instrument attached: voiced upward as written
+    for instr in ("none", "Instrument", "Piano", "Guitar", "MidiInstrument"):
+        for names_, want in ((["A", "C", "E"], [["A", 4], ["C", 5], ["E", 5]]), (["G", "B", "D"], [["G", 4], ["B", 4], ["D", 5]]),
+                             (["C", "E", "G"], [["C", 4], ["E", 4], ["G", 4]]), (["E"], [["E", 4]]), (["B", "C"], [["B", 4], ["C", 5]])):
+            yield Case("track.run", [instr, [["add_strs", names_, 4], ["add_strs", names_, 2]]], "history/string-lists", model=False,
+                       kind=("strs", want))
     # a section in another key and meter added as a bar in the MIDDLE of a track: the bars opened after it continue ITS key and
     # meter (not the first bar's, not the default)
     for first in ([["add", C4, 1]], [["add_bar", "Eb", 3, 4], ["add", C4, 2], ["add", C4, 4]], []):
@@ -204,7 +216,13 @@ def check_track(c, obs):
         elif op[0] == "add_bar":
             if isinstance(st[0], Err):
                 return "add_bar raised", {"step": i}
-            prev = st[1]
+            bars = st[1]
+            want_m = [op[2], F(op[3])]
+            if len(bars) != len(prev) + 1 or bars[:-1] != prev:
+                return "add_bar did not append exactly one bar and leave the others alone (%d bars before, %d after)" % (len(prev), len(bars)), {"step": i}
+            if bars[-1][4] != [] or bars[-1][5] != want_m or bars[-1][6] != op[1]:
+                return "the bar added is not the empty bar in the given key and meter", {"step": i}
+            prev = bars
         else:
             prev = st[1]
     return None
@@ -345,6 +363,16 @@ def oracle(c, obs):
         got = [sum(len(b[4]) for b in t) for t in obs]
         # Guitar refuses nothing here (E-3 is its lowest note, C-E-G in octave 4 fits)
         return None if got == tracks else "adding notes to a composition did not reach exactly the selected tracks"
+    if kind[0] == "strs":
+        want = kind[1]
+        for i, st in enumerate(obs[:2]):
+            if isinstance(st, Err) or isinstance(st[0], Err):
+                return "adding a list of note names raised"
+            flat = [e for b in st[1] for e in b[4]]
+            if st[0] is not True or len(flat) != i + 1 or flat[-1][2] != want:
+                return "a chord given as a list of names %s was stored as %s, expected %s" % (
+                    c["args"][1][0][1], flat[-1][2] if flat else None, want)
+        return None
     if kind[0] == "two":
         n, script = c["args"]
         tracks = [[] for _ in range(n)]; sel = [[] for _ in range(n)]
